@@ -111,6 +111,7 @@ def m_impairments(d):
 TOPO_MUT = {
     'per_degree_pch': m_per_degree(['pch']), 'per_degree_psd': m_per_degree(['psd']), 'per_degree_psw': m_per_degree(['psw']),
     'per_degree_mixed': m_per_degree(['pch', 'psd', 'psw']), 'per_degree_two': m_per_degree(['psw', 'pch']),
+    'per_degree_interleaved': m_per_degree(['pch', 'psd', 'pch']),
     'design_bands': m_design_bands, 'loss_table_asc': m_loss_table('asc'), 'loss_table_desc': m_loss_table('desc'),
     'loss_table_shuffled': m_loss_table('shuffled'), 'lumped_out_of_order': m_lumped, 'raman': m_raman, 'nulls': m_nulls,
     'roadm_no_variety': m_no_roadm_variety, 'per_degree_impairments': m_impairments,
@@ -332,6 +333,40 @@ def objs_equal(a, b, path='', out=None, depth=0):
     return out
 
 
+def permute_lists(x, how):
+    """the same YANG document with the entries of every keyed list (list of objects) written in another order"""
+    if isinstance(x, dict):
+        return {k: permute_lists(v, how) for k, v in x.items()}
+    if isinstance(x, list):
+        y = [permute_lists(v, how) for v in x]
+        if len(y) > 1 and all(isinstance(v, dict) for v in y):
+            if how == 'reverse':
+                y = y[::-1]
+            elif how == 'rotate':
+                y = y[1:] + y[:1]
+            else:
+                y = [y[1], y[0]] + y[2:]
+        return y
+    return x
+
+
+def canon_lists(x):
+    """order-insensitive form of a legacy document: every list of objects sorted by its canonical JSON text"""
+    if isinstance(x, dict):
+        if set(x) == {'value', 'frequency'} and isinstance(x['value'], list) and isinstance(x['frequency'], list) \
+                and len(x['value']) == len(x['frequency']):
+            # per-frequency table kept as two parallel arrays: the (frequency, value) pairs are the content
+            pairs = sorted(zip(x['frequency'], x['value']))
+            return {'frequency': [a for a, _ in pairs], 'value': [b for _, b in pairs]}
+        return {k: canon_lists(v) for k, v in x.items()}
+    if isinstance(x, list):
+        y = [canon_lists(v) for v in x]
+        if all(isinstance(v, dict) for v in y):
+            y = sorted(y, key=lambda v: json.dumps(v, sort_keys=True, default=str))
+        return y
+    return x
+
+
 def check_doc(kind, d, where, viol, tags):
     from gnpy.tools.convert_legacy_yang import legacy_to_yang, yang_to_legacy
     from gnpy.tools.yang_convert_utils import load_data
@@ -365,6 +400,24 @@ def check_doc(kind, d, where, viol, tags):
     if diffs:
         k = diffs[0].split(':')[0].split('/')[-1].split('[')[0]
         v(f'{kind}:value-or-structure-not-preserved:{k}', str(diffs[:3])[:400])
+    # keyed YANG lists carry no order: the same YANG document with its list entries written in another order converts to the
+    # same legacy content (compared up to the order of lists of objects)
+    ref = canon_lists(d1)
+    for how in ('reverse', 'rotate', 'swap'):
+        Yp = permute_lists(Y, how)
+        if Yp == Y:
+            continue
+        try:
+            load_data(json.dumps(Yp))
+            dp = yang_to_legacy(copy.deepcopy(Yp))
+        except Exception as exc:  # noqa
+            v(f'{kind}:yang-list-order-raised:{type(exc).__name__}', f'list entries in {how} order: {str(exc)[:200]}')
+            break
+        tags['yang-list-orders'] = tags.get('yang-list-orders', 0) + 1
+        if canon_lists(dp) != ref:
+            v(f'{kind}:yang-list-order-changes-meaning', f'list entries written in {how} order: '
+              f'{str(cmp_docs(ref, canon_lists(dp), exact=True))[:400]}')
+            break
     tags[f'{kind}-docs'] = tags.get(f'{kind}-docs', 0) + 1
     return d1
 
